@@ -14,7 +14,7 @@ CONSTANTS
   Deltas <- D3
   OtherKinds <- SomeOther
   Strict = FALSE
-  ExK = 4
+  ExK = 2
   D = 1
 INIT Init
 NEXT NextR
